@@ -82,7 +82,7 @@ PROPS = {
                                                         'DW.C15_skip_inner_no_fields', 'DW.C15_lifetime_bound', 'DW.C15_bad_trait', 'DW.C15_bad_trait_instances',
                                                         'DW.C15_empty_struct', 'DW.C15_use_case', 'DW.C15_fqs_repeated', 'DW.C15_variant_option_repeated'],
                 enums=['invalid', 'skip', 'default'], configs_quick=['default', 'zeroize', 'zod', 'nightly'], diagnostics=True, design='7/C15'),
-    'C16': dict(traits=[], outcome='message', theorems=['DW.C16_no_panic_stage2', 'DW.Input.fromInput_np', 'DW.genPanic_none', 'DW.C16_stage1_item_kept', 'DW.C16_stage1_forward', 'DW.C16_pipeline', 'DW.C16_crate_args_rejected', 'DW.C16_second_visit'],
+    'C16': dict(tables=True, traits=[], outcome='message', theorems=['DW.C16_no_panic_stage2', 'DW.Input.fromInput_np', 'DW.genPanic_none', 'DW.C16_stage1_item_kept', 'DW.C16_stage1_forward', 'DW.C16_pipeline', 'DW.C16_crate_args_rejected', 'DW.C16_second_visit'],
                 enums=['invalid', 'names'], stage1=True, malformed=0.6, configs_quick=['default', 'zeroize', 'zod', 'nightly'], diagnostics=True, design='7/C16'),
     'C17': dict(tables=True, traits=['Eq', 'Clone'], theorems=['DW.C17_eq_obligations', 'DW.C17_union', 'DW.C06_skipped_never_mentioned', 'DW.C02_obligations', 'DW.C02_well_typed'], enums=['skip', 'bounds', 'fieldopts'], configs_quick=['default', 'safe', 'zod'], design='7/C17'),
     'C18': dict(traits=['Zeroize'], theorems=['DW.C18_validated', 'DW.C18_effect'], enums=['zeroize', 'skip', 'fieldopts'], configs_quick=['zeroize', 'zod'],
